@@ -153,7 +153,7 @@ func (w *worker) basePath(name string) string {
 	return filepath.Join(w.job.BaseDir, name)
 }
 
-func (w *worker) execReader(i int, th Thread) []string {
+func (w *worker) execReader(i int, th Thread, ref []string) []string {
 	var st readerState
 	res := make([]string, 0, len(th.Ops)+1)
 	closeSlot := func(s int) string {
@@ -222,6 +222,7 @@ func (w *worker) execReader(i int, th Thread) []string {
 			}
 			return "unknown-op"
 		})
+		w.vet(i, r, ref != nil, ref, len(res))
 		res = append(res, r)
 		pause(op.P)
 	}
@@ -306,7 +307,7 @@ type writerState struct {
 	ngrp int
 }
 
-func (w *worker) execWriter(i int, th Thread, tag string) []string {
+func (w *worker) execWriter(i int, th Thread, tag string, ref []string) []string {
 	st := &writerState{path: filepath.Join(w.job.WorkDir, fmt.Sprintf("w-%s-%d.h5", tag, i))}
 	res := make([]string, 0, len(th.Ops)+1)
 	closeAndObserve := func() string {
@@ -395,19 +396,22 @@ func (w *worker) execWriter(i int, th Thread, tag string) []string {
 			}
 			return "unknown-op"
 		})
+		w.vet(i, r, ref != nil, ref, len(res))
 		res = append(res, r)
 		pause(op.P)
 	}
-	res = append(res, w.do(i, "close-final", true, closeAndObserve))
-	return res
+	r := w.do(i, "close-final", true, closeAndObserve)
+	w.vet(i, r, ref != nil, ref, len(res))
+	return append(res, r)
 }
 
-func (w *worker) execHandleThread(i int, tag string) []string {
+// execHandleThread runs thread i; ref is nil in the sequential phase and the sequential results afterwards.
+func (w *worker) execHandleThread(i int, tag string, ref []string) []string {
 	th := w.c.Threads[i]
 	if th.Role == "writer" {
-		return w.execWriter(i, th, tag)
+		return w.execWriter(i, th, tag, ref)
 	}
-	return w.execReader(i, th)
+	return w.execReader(i, th, ref)
 }
 
 func opNames(th Thread) []string {
@@ -426,10 +430,10 @@ func (w *worker) runHandles() {
 	ref := make([][]string, n)
 	mask := make([][]bool, n)
 	for i := 0; i < n; i++ {
-		ref[i] = w.execHandleThread(i, "s1")
+		ref[i] = w.execHandleThread(i, "s1", nil)
 	}
 	for i := 0; i < n; i++ {
-		again := w.execHandleThread(i, "s2")
+		again := w.execHandleThread(i, "s2", nil)
 		mask[i] = make([]bool, len(ref[i]))
 		for k := range ref[i] {
 			if k >= len(again) || again[k] != ref[i][k] {
@@ -452,7 +456,7 @@ func (w *worker) runHandles() {
 		bodies := make([]func(), n)
 		for i := 0; i < n; i++ {
 			i := i
-			bodies[i] = func() { got[i] = w.execHandleThread(i, fmt.Sprintf("c%d", rep)) }
+			bodies[i] = func() { got[i] = w.execHandleThread(i, fmt.Sprintf("c%d", rep), ref[i]) }
 		}
 		w.runThreads(bodies)
 		if w.tr.windowsOverlap(n) {
